@@ -1,6 +1,7 @@
 SPECIFICATION TSpec
 CONSTANT Motifs = {}
 CONSTANT SharedNames = FALSE
+CONSTANT StaleEdgeList = FALSE
 CONSTANT GridA = 1
 CONSTANT GridB = 2
 CHECK_DEADLOCK FALSE
